@@ -135,7 +135,7 @@ def batch_e2(max_n, lo, hi, seed):
 
 
 def conditions(tier, seed):
-    N = 5 if tier == 'quick' else 6
+    N = 5 if tier == 'quick' else 7
     return cards_conditions('c15_sound', 'c15', 'sound', indexed_shapes(N), 30 if tier == 'quick' else 90,
                             'atomic sets: partition, co-selection (closed form), mandatory chains')
 
@@ -163,7 +163,7 @@ def info(tier):
                         'co-selection oracle: every relation on the tree path between two features has min == k; validated against z3 on every enumerated constraint-free instance',
                         'shapes enumerated (enumeration); cardinalities symbolic (E1); configurations by z3 (E2)'],
         'coverage': {'functions_encoded': ['FMAtomicSets.execute/get_result', 'get_atomic_sets', 'compute_atomic_sets', 'Feature.is_mandatory', 'Feature.get_children'],
-                     'bounds': {'shapes_E1': 'N<=%d' % (5 if tier == 'quick' else 6), 'shapes_E2': 'N<=%d' % (4 if tier == 'quick' else 5), 'constraints': 'one tree of depth<=1'},
+                     'bounds': {'shapes_E1': 'N<=%d' % (5 if tier == 'quick' else 7), 'shapes_E2': 'N<=%d' % (4 if tier == 'quick' else 5), 'constraints': 'one tree of depth<=1'},
                      'stubs': []},
     }
 
